@@ -41,6 +41,8 @@ theorem insert_cons_eq (k v v' : Bytes) (m : Map) :
     insert ((k, v') :: m) k v = (k, v) :: m := by
   simp [insert, blt_irrefl]
 
+theorem get_nil (k : Bytes) : get ([] : Map) k = none := rfl
+
 theorem get_cons (k' v' : Bytes) (m : Map) (k : Bytes) :
     get ((k', v') :: m) k = if k' = k then some v' else get m k := rfl
 
